@@ -55,6 +55,24 @@ MUTANTS = [
      "old": "        lock_held = [True]\n",
      "new": "        instance.unlock()\n        lock_held = [False]\n",
      "note": "stream gives the lock up right away: other requests may interleave"},
+    # ---- C08
+    {"id": "c08-memoize-plain-store", "property": "C08", "file": M,
+     "old": "            result = mymemo.setdefault(normalized_arg, result)", "new": "            mymemo[normalized_arg] = result"},
+    {"id": "c08-memoize-returns-own-result", "property": "C08", "file": M,
+     "old": "            result = mymemo.setdefault(normalized_arg, result)", "new": "            mymemo.setdefault(normalized_arg, result)",
+     "note": "stores the first value but returns each thread's own"},
+    {"id": "c08-stock-initial-no-reset", "property": "C08", "file": STK,
+     "old": "            self.model.reset_cache() # elements that depend on this stock have memoized values based on the old initial value\n", "new": ""},
+    {"id": "c08-element-setter-no-reset", "property": "C08", "file": EL,
+     "old": "            self._equation = None\n        self.model.reset_cache()\n        self._function_string",
+     "new": "            self._equation = None\n        self._function_string"},
+    {"id": "c08-constant-setter-no-reset", "property": "C08", "file": "BPTK_Py/sddsl/constant.py",
+     "old": "        self.model.reset_cache()\n        self.generate_function()", "new": "        self.generate_function()"},
+    {"id": "c08-flow-setter-no-reset", "property": "C08", "file": "BPTK_Py/sddsl/flow.py",
+     "old": "            self._equation = equation\n        self.model.reset_cache()\n", "new": "            self._equation = equation\n"},
+    {"id": "c08-reset-cache-skips-stocks", "property": "C08", "file": M,
+     "old": "        for equation in self.memo:\n            self.memo[equation] = {}",
+     "new": "        for equation in self.memo:\n            if equation not in self.stocks:\n                self.memo[equation] = {}"},
     # ---- C19
     {"id": "c19-state-not-deepcopied", "property": "C19", "file": S,
      "old": "        session_state = copy.deepcopy(instance['instance'].session_state)\n",
